@@ -12,6 +12,9 @@ import json, os, re, shutil, subprocess, sys, time
 V = os.path.dirname(os.path.dirname(os.path.abspath(__file__)))
 PINNED = [t.split("::", 1)[1] for t in json.load(open("/root/.vp/BASELINE.json"))["stable_pass"]]
 TARGET = "/tmp/vs_target"
+PY312 = os.path.expanduser("~/.pyenv/versions/3.12.1/bin/python3")
+PYENV = {"PYENV_VERSION": "3.12.1", "PYO3_USE_ABI3_FORWARD_COMPATIBILITY": "1",
+         "PATH": os.path.dirname(PY312) + os.pathsep + os.environ.get("PATH", "")}
 
 
 def sh(cmd, cwd=None, timeout=3000, env=None):
@@ -105,10 +108,10 @@ def py_demo_run(d, wt, tag):
     if "rust_stuff" in src or any(f.startswith("src/") for f in subprocess.run(
             "git diff --name-only", shell=True, cwd=wt, capture_output=True, text=True).stdout.split()):
         rc, o = sh("cargo build --release --offline 2>&1 && cp " + TARGET + "/release/librust_stuff.so tm/rust_stuff.so",
-                   cwd=wt, env={"PYENV_VERSION": "3.12.1"})
+                   cwd=wt, env=PYENV)
         out[f"py_ext_build_{tag}"] = rc == 0
     shutil.copy(os.path.join(d, "demo.py"), os.path.join(wt, "demo.py"))
-    rc, o = sh("timeout 900 python3 demo.py 2>&1", cwd=wt, env={"PYENV_VERSION": "3.12.1"})
+    rc, o = sh("timeout 1800 " + PY312 + " demo.py 2>&1", cwd=wt, env=PYENV)
     out[f"py_demo_{tag}_rc"] = rc
     out[f"py_demo_{tag}_tail"] = o[-400:]
     os.remove(os.path.join(wt, "demo.py"))
